@@ -16,6 +16,7 @@ from bibtexparser.model import (
     String,
 )
 from bibtexparser.splitter import Splitter
+from bibtexparser.middlewares.middleware import BlockMiddleware
 from bibtexparser.writer import BibtexFormat
 
 from .. import bigdocs
@@ -247,11 +248,37 @@ def auto_column(blocks):
     return m + 3
 
 
+class LongerKeys(BlockMiddleware):
+    """A user's copy-mode middleware that lengthens every field key (what 'auto' must be computed from is the library the
+    WRITER gets, i.e. after the stack)."""
+
+    def __init__(self):
+        super().__init__(allow_inplace_modification=False)
+
+    def transform_entry(self, entry, library):
+        for f in entry.fields:
+            f.key = f.key + "_renamed_by_the_stack"
+        return entry
+
+
 def check_lib(names, spec, acc, route, lib=None, case_extra=None):
     if lib is None:
         uni = universe()
         blocks = [uni[n] for n in names]
         lib = Library(blocks)
+    if route == "stack changes keys":
+        # write_string(lib, unparse_stack=[m]) == the writer's contract on m.transform(lib), judged by the verbatim route
+        try:
+            out1 = bibtexparser.write_string(lib, unparse_stack=[LongerKeys()], bibtex_format=mkformat(spec))
+            out2 = bibtexparser.write_string(LongerKeys().transform(lib), unparse_stack=[], bibtex_format=mkformat(spec))
+        except Exception as e:
+            acc.exception(e, {"library": list(names), "format": list(spec), "route": route}, "write_string with a user middleware")
+            return
+        acc.trace(2)
+        acc.case(nontrivial_key=(names, spec, route) if names else None)
+        if out1 != out2:
+            acc.violation({"oracle": "entry_rendering", "what": "layout computed before the stack ran"}, {"case": {"library": list(names), "format": list(spec), "route": route}, "observed": out1[:400], "expected": out2[:400]})
+        return check_lib(names, spec, acc, "verbatim", lib=LongerKeys().transform(lib), case_extra={"after": "LongerKeys"})
     fmt = mkformat(spec)
     fcanon = canon(fmt)
     lcanon = canon(lib)
@@ -397,8 +424,8 @@ def run_shard(shard, tier, acc):
                 libs.append(prefix[:1])
     for names in libs:
         acc.count("libraries")
-        for spec in fs:
-            for route in ("verbatim", "default"):
+        for n_, spec in enumerate(fs):
+            for route in ("verbatim", "default") + (("stack changes keys",) if n_ % 8 == 0 or spec[1] in ("auto", AUTO2) else ()):
                 check_lib(names, spec, acc, route)
 
 
